@@ -1151,6 +1151,28 @@ const PROBS: &[u32] = &[
 ];
 
 fn gen_vector(p: &mut Prng) -> (usize, Vec<Trans>) {
+    // one vector in six is long (9 to 40 entries: past any blocking / unrolling factor of the sampling loop)
+    if p.chance(1, 6) {
+        let k = *p.pick(&[9usize, 12, 16, 17, 24, 33, 40]);
+        let ns = k + p.below(4) as usize;
+        let mut targets: Vec<usize> = (0..ns).collect();
+        for i in (1..targets.len()).rev() {
+            let j = p.below(i as u64 + 1) as usize;
+            targets.swap(i, j);
+        }
+        let share = *p.pick(&[1.0f32, 0.75, 0.5]);
+        let equal = p.chance(1, 2);
+        let mut v = Vec::new();
+        let mut sum: f32 = 0.0;
+        for t in targets.iter().take(k) {
+            let pr = if equal { share / (k as f32) } else { share * (((p.below(1 << 20) + 1) as f32) / 1048576.0) / (k as f32) };
+            if pr > 0.0 && sum + pr <= 1.0 {
+                sum += pr;
+                v.push(Trans(*t, pr));
+            }
+        }
+        return (ns, v);
+    }
     let ns = p.range(1, 6) as usize;
     let mut targets: Vec<usize> = (0..ns).collect();
     targets.push(STATE_END);
@@ -1202,6 +1224,8 @@ fn fixed_vectors() -> Vec<(&'static str, usize, Vec<Trans>)> {
         ("almost-one", 2, vec![Trans(0, 0.99999994), Trans(1, 5.9604645e-8)]),
         ("absorbed", 2, vec![Trans(0, 0.75), Trans(1, 1e-9), Trans(STATE_END, 0.25)]),
         ("eighty", 1, vec![Trans(0, 0.8)]),
+        ("twelve-sixteenths", 12, (0..12).map(|i| Trans(i, 0.0625)).collect()),
+        ("seventeen", 17, (0..17).map(|i| Trans(16 - i, 0.05)).collect()),
     ]
 }
 
